@@ -657,13 +657,17 @@ theorem step_start (c : Cfg) (ro : Bool) {s : RState} (he : s.esc = true) :
   · rw [if_pos hc, if_pos he, if_neg (by decide), if_neg (by decide), if_pos rfl]
   · rw [if_neg hc, if_pos rfl, if_pos he]
 
-/-- `<10>` without a pending escape: an escape is pending afterwards, nothing is reported -/
-theorem step_escape (c : Cfg) {s : RState} (h : RInv s) (he : s.esc = false) :
+/-- `<10>` unless an escape is pending inside a message: an escape is pending afterwards, nothing is
+reported -/
+theorem step_escape (c : Cfg) {s : RState} (h : RInv s) (he : s.coming = false ∨ s.esc = false) :
     ∃ s', readerStep c true s 0x10 = .ok (s', true, none) ∧ RInv s' ∧ s'.esc = true := by
-  have hne : ¬ s.esc = true := by simp [he]
   unfold readerStep
   by_cases hc : s.coming = true
-  · rw [if_pos hc, if_neg hne, if_pos rfl]
+  · have hne : ¬ s.esc = true := by
+      rcases he with h1 | h1
+      · rw [hc] at h1; cases h1
+      · simp [h1]
+    rw [if_pos hc, if_neg hne, if_pos rfl]
     exact ⟨_, rfl, h.flags _ _ _, rfl⟩
   · rw [if_neg hc, if_neg (by decide)]
     by_cases hs : s.sot = true
@@ -695,7 +699,7 @@ theorem step_first (c : Cfg) {s : RState} (b : Nat) (h : RInv s) (hc : s.coming 
   rw [take_set_succ _ _ _ (by rw [h.len]; omega), hp]; rfl
 
 /-- the start sequence followed by a first byte, from any state without a pending escape -/
-theorem feed_start (c : Cfg) {s : RState} (b : Nat) (h : RInv s) (he : s.esc = false) (h2 : b ≠ 0x02)
+theorem feed_start (c : Cfg) {s : RState} (b : Nat) (h : RInv s) (he : s.coming = false ∨ s.esc = false) (h2 : b ≠ 0x02)
     (h10 : b ≠ 0x10) : ∃ s', feed c s [0x10, 0x02, b] = .ok (s', []) ∧ InFrame s' [b] := by
   obtain ⟨s1, hs1, hi1, he1⟩ := step_escape c h he
   have hs2 := step_start c true he1
@@ -766,9 +770,10 @@ theorem decode_bodyOf (ds now : Nat) {m : Msg} (hv : Valid m) :
   rw [← h5]; simp
 
 
-/-- **the frame of a valid message**, fed to a reader without a pending escape (any flags, any buffer
+/-- **the frame of a valid message**, fed to a reader that is not inside a message with an escape pending (any other flags, any buffer
 content, any write position): exactly that message is reported and the reader is idle afterwards -/
-theorem frame_fed (c : Cfg) {s : RState} {m : Msg} (h : RInv s) (he : s.esc = false) (hv : Valid m) :
+theorem frame_fed (c : Cfg) {s : RState} {m : Msg} (h : RInv s) (he : s.coming = false ∨ s.esc = false)
+    (hv : Valid m) :
     ∃ s', feed c s (frame (bodyOf m)) = .ok (s', [received m]) ∧ Idle s' := by
   obtain ⟨rest, hrest, hrl⟩ : ∃ rest, bodyOf m = 0x93 :: rest ∧ rest.length = 12 + m.len :=
     ⟨_, rfl, by simp [hv.data_len]; omega⟩
@@ -791,6 +796,74 @@ theorem frame_fed (c : Cfg) {s : RState} {m : Msg} (h : RInv s) (he : s.esc = fa
   have : [0x93] ++ rest ++ [checksum (bodyOf m)] = bodyOf m ++ [checksum (bodyOf m)] := by rw [hrest]; rfl
   rw [this, decode_bodyOf _ _ hv]
   rfl
+
+/-- no adjacent `<10><02>` -/
+def noStart : List Nat → Bool
+  | a :: b :: t => !(a == 0x10 && b == 0x02) && noStart (b :: t)
+  | _ => true
+
+/-- outside a message, bytes without a start sequence leave the reader outside a message and
+nothing is reported -/
+theorem feed_outside (c : Cfg) (g : List Nat) : ∀ {s : RState}, RInv s → s.coming = false → s.sot = false →
+    (s.esc = true → g.head? ≠ some 0x02) → noStart g = true →
+    ∃ s', feed c s g = .ok (s', []) ∧ RInv s' ∧ s'.coming = false ∧ s'.sot = false ∧
+      (s'.esc = true → g.getLast? = some 0x10 ∨ (g = [] ∧ s.esc = true)) := by
+  induction g with
+  | nil => intro s h hc hs _ _; exact ⟨s, rfl, h, hc, hs, fun he => Or.inr ⟨rfl, he⟩⟩
+  | cons b t ih =>
+    intro s h hc hs hesc hns
+    have hc' : ¬ s.coming = true := by simp [hc]
+    have hs' : ¬ s.sot = true := by simp [hs]
+    have hns' : noStart t = true := by
+      cases t with
+      | nil => rfl
+      | cons x t' => simp only [noStart, Bool.and_eq_true] at hns; exact hns.2
+    by_cases h2 : b = 0x02
+    · have he : ¬ s.esc = true := fun he => hesc he (by simp [h2])
+      have hstep : readerStep c true s b = .ok ({ s with sot := false }, true, none) := by
+        unfold readerStep; rw [if_neg hc', if_pos h2, if_neg he]
+      obtain ⟨s', hf, hi, hc2, hs2, hl⟩ := ih (s := { s with sot := false }) (h.flags _ _ _) hc rfl
+        (fun h' => absurd h' he) hns'
+      refine ⟨s', by simp [feed, hstep, hf], hi, hc2, hs2, ?_⟩
+      intro he'
+      rcases hl he' with h1 | ⟨_, h1⟩
+      · left; cases t with
+        | nil => simp at h1
+        | cons x t' => simpa using h1
+      · exact absurd h1 he
+    · have hstep : readerStep c true s b = .ok ({ s with esc := decide (b = 0x10) }, true, none) := by
+        unfold readerStep; rw [if_neg hc', if_neg h2, if_neg hs']; simp
+      obtain ⟨s', hf, hi, hc2, hs2, hl⟩ := ih (s := { s with esc := decide (b = 0x10) }) (h.flags _ _ _) hc hs
+        (by
+          intro hb
+          have hb' : b = 0x10 := by simpa using hb
+          cases t with
+          | nil => simp
+          | cons x t' =>
+            simp only [noStart, Bool.and_eq_true, Bool.not_eq_true', Bool.and_eq_false_iff, beq_eq_false_iff_ne] at hns
+            intro hx
+            simp only [List.head?_cons, Option.some.injEq] at hx
+            rcases hns.1 with h' | h'
+            · exact h' hb'
+            · exact h' hx) hns'
+      refine ⟨s', by simp [feed, hstep, hf], hi, hc2, hs2, ?_⟩
+      intro he'
+      rcases hl he' with h1 | ⟨ht, h1⟩
+      · left; cases t with
+        | nil => simp at h1
+        | cons x t' => simpa using h1
+      · left; subst ht; have : b = 0x10 := by simpa using h1
+        simp [this]
+
+/-- from an idle reader (nothing pending) any bytes without a start sequence followed by the frame of
+a valid message yield exactly that message -/
+theorem frame_fed_idle (c : Cfg) {s : RState} {m : Msg} (g : List Nat) (h : RInv s) (hh : handling s = false)
+    (hns : noStart g = true) (hv : Valid m) :
+    ∃ s', feed c s (g ++ frame (bodyOf m)) = .ok (s', [received m]) ∧ Idle s' := by
+  simp only [handling, Bool.or_eq_false_iff] at hh
+  obtain ⟨s1, hf1, hi1, hc1, _, _⟩ := feed_outside c g h hh.1.1 hh.2 (by rw [hh.1.2]; simp) hns
+  obtain ⟨s2, hf2, hidle⟩ := frame_fed c hi1 (Or.inl hc1) hv
+  exact ⟨s2, by simp only [feed_append, hf1, hf2, List.nil_append], hidle⟩
 
 /-! ## `GetMessageFromStream` and `ParseMessages` -/
 
